@@ -235,7 +235,11 @@ Mutate(e) ==
       brk == IF div \/ e.panic \/ ~Broken(o) THEN {} ELSE {F(e, "C03", "inconsistent answers: " \o o.broken)}
       judge == ~div /\ aliveok
       \* ---- C03
-      c03 == IF ~judge THEN {}
+      \* a bind / put / data within the limits that panics has not written (not read back) what the caller asked for:
+      \* "kid(v,a) is the target of the most recent bind" fails for a bind that never completes
+      c03p == IF ~div /\ e.panic /\ e.op \in {"bind", "put", "data"}
+              THEN {F(e, "C03", e.op \o "() within the limits panicked: nothing was written / read back")} ELSE {}
+      c03 == IF ~judge THEN c03p
              ELSE (IF EdgesOk(o, g2) THEN {} ELSE {F(e, "C03", "kids/kid differ from the last binds")})
                   \cup (IF DataOk2(o, g2) THEN {} ELSE {F(e, "C03", "data differs from the last put")})
                   \cup (IF e.op = "data" /\ e.ret # DataRet(g, e.v) THEN {F(e, "C03", "data() returned something else")} ELSE {})
@@ -450,10 +454,21 @@ NewEv(e) ==
 \* The harness parsed the text back into facts: nodes (in printed order), edges <<v, label, to>>, data <<v, bytes>>.
 EdgeList(g) == UNION {{<<v, g.edges[v][i][1], g.edges[v][i][2]>> : i \in 1..Len(g.edges[v])} : v \in g.present}
 Once(seq, x) == Cardinality({i \in DOMAIN seq : seq[i] = x}) = 1
+\* Labels are printed through Display, and Display is not injective on label VALUES: a Str with a blank inside prints
+\* like the Str without it, a Str of one character like the Greek label of that character.  e.pr lists <<token, printed
+\* text>> for the labels of the run that do not print as their token; edges are compared as BAGS of printed entries
+\* (two edges of a vertex whose labels print alike and lead to the same vertex must both be there).
+PrOf(e, a) == IF "pr" \in DOMAIN e /\ \E i \in DOMAIN e.pr : e.pr[i][1] = a
+              THEN e.pr[CHOOSE i \in DOMAIN e.pr : e.pr[i][1] = a][2] ELSE a
+PrEdge(e, x) == <<x[1], PrOf(e, x[2]), x[3]>>
+CountIn(seq, x) == Cardinality({i \in DOMAIN seq : seq[i] = x})
+EdgeBagOk(e, want) ==
+  /\ Len(e.edges) = Cardinality(want)
+  /\ \A x \in want : CountIn(e.edges, PrEdge(e, x)) = Cardinality({y \in want : PrEdge(e, y) = PrEdge(e, x)})
 FactsOk(e, g) ==
   /\ e.wellformed
   /\ e.nodes = SetToSeq(g.present)                                    \* one node per present vertex, ascending, none else
-  /\ Len(e.edges) = Cardinality(EdgeList(g)) /\ \A x \in EdgeList(g) : Once(e.edges, x)
+  /\ EdgeBagOk(e, EdgeList(g))
   /\ Len(e.data) = Cardinality({v \in g.present : g.st[v] # "empty"})
   /\ \A v \in g.present : g.st[v] # "empty" => Once(e.data, <<v, g.val[v]>>)
 ExportEv(e) ==
@@ -468,14 +483,15 @@ ExportEv(e) ==
 \* vertex WITH data and those further labels prints.  Nothing else is excused.
 KnownVPrintDelta(e, g) ==
   /\ e.wellformed /\ g.st[e.v] = "empty" /\ Len(g.edges[e.v]) >= 2 /\ g.edges[e.v][1][1] = "Δ"
-  /\ e.marker /\ e.labels = [i \in 1..(Len(g.edges[e.v]) - 1) |-> g.edges[e.v][i + 1][1]]
+  /\ e.marker /\ e.labels = [i \in 1..(Len(g.edges[e.v]) - 1) |-> PrOf(e, g.edges[e.v][i + 1][1])]
 VPrintEv(e) ==
   LET g == gs[e.h] IN
   IF void \/ div \/ IsNull(g) \/ e.v \notin g.present THEN Cur
   ELSE IF KnownVPrintDelta(e, g) THEN [Cur EXCEPT !.fails = fails \cup {F(e, "C20", "KNOWN:D9-vprint-delta-label: v_print of a vertex without data whose first label is the character Δ reads as data marker plus the remaining labels")}]
   ELSE [Cur EXCEPT !.fails = fails
           \cup (IF e.wellformed /\ (e.marker <=> g.st[e.v] # "empty") THEN {} ELSE {F(e, "C20", "v_print: data marker wrong")})
-          \cup (IF e.wellformed /\ ToSet(e.labels) = LabelsOf(g, e.v) /\ Len(e.labels) = Len(g.edges[e.v]) THEN {}
+          \cup (IF e.wellformed /\ Len(e.labels) = Len(g.edges[e.v])
+                   /\ \A a \in LabelsOf(g, e.v) : CountIn(e.labels, PrOf(e, a)) = Cardinality({b \in LabelsOf(g, e.v) : PrOf(e, b) = PrOf(e, a)}) THEN {}
                  ELSE {F(e, "C20", "v_print: labels are not exactly those of the vertex")})]
 InspectEv(e) ==
   LET g == gs[e.h]
@@ -483,7 +499,7 @@ InspectEv(e) ==
       want == UNION {{<<u, g.edges[u][i][1], g.edges[u][i][2]>> : i \in 1..Len(g.edges[u])} : u \in R} IN
   IF void \/ div \/ IsNull(g) \/ e.v \notin g.present \/ ~(R \subseteq g.present) THEN Cur   \* dangling edges: left open
   ELSE [Cur EXCEPT !.fails = fails
-          \cup (IF e.wellformed /\ Len(e.edges) = Cardinality(want) /\ \A x \in want : Once(e.edges, x) THEN {}
+          \cup (IF e.wellformed /\ EdgeBagOk(e, want) THEN {}
                  ELSE {F(e, "C20", "inspect: does not list every reachable edge exactly once (or failed / did not parse)")})]
 
 (* ------------------------- script deployment (C14) ------------------------------------------ *)
